@@ -113,9 +113,17 @@ pub fn generate(em: &mut Emitter, seed: u64, thorough: bool) {
     let nd = if thorough { 4000 } else { 400 };
     for _ in 0..nd {
         let pick = |rng: &mut Rng| if rng.chance(2, 3) { limbs[rng.below(7) as usize] } else { rng.below(1 << 32) };
-        let (ah, al, bh, bl) = (pick(&mut rng), pick(&mut rng), pick(&mut rng), pick(&mut rng));
-        let a = (ah << 32) | al;
+        let (mut ah, mut al, bh, bl) = (pick(&mut rng), pick(&mut rng), pick(&mut rng), pick(&mut rng));
         let b = (bh << 32) | bl;
+        // every fourth case: the divisor divides the dividend exactly (remainder 0 is the boundary of
+        // the remainder-range check)
+        if rng.chance(1, 4) && b != 0 {
+            let k = if rng.chance(1, 2) { rng.below(5) } else { rng.below(u64::MAX / b + 1) };
+            let a0 = b.saturating_mul(k);
+            ah = a0 >> 32;
+            al = a0 & 0xFFFF_FFFF;
+        }
+        let a = (ah << 32) | al;
         for proc_ in ["div", "mod", "divmod"] {
             let src = format!("use.std::math::u64\nbegin exec.u64::{} end", proc_);
             let p = match assemble(None, &src, false) {
@@ -126,12 +134,51 @@ pub fn generate(em: &mut Emitter, seed: u64, thorough: bool) {
                 }
             };
             let stack = [bh, bl, ah, al, 11, 12];
-            for variant in 0..4 {
+            // coordinated lies: (q', r') that still satisfy q' * b + r' = a (in the integers or modulo
+            // 2^64) but not r' < b; the position of each limb on the tape is read off the honest run
+            let mut honest_tape: Vec<u64> = Vec::new();
+            let mut consistent: Vec<(u64, u64)> = Vec::new();
+            if b != 0 {
+                let (q, r) = (a / b, a % b);
+                for k in 1..=2u64 {
+                    if q >= k {
+                        if let Some(r2) = b.checked_mul(k).and_then(|x| x.checked_add(r)) {
+                            consistent.push((q - k, r2));
+                        }
+                    }
+                }
+                consistent.push((0, a));
+                consistent.push((q.wrapping_add(1), r.wrapping_sub(b)));
+                consistent.push((q, r.wrapping_add(b)));
+                consistent.push((q.wrapping_sub(1), r));
+            }
+            for variant in 0..(4 + consistent.len()) {
                 let lies = match variant {
                     0 => Lies::default(),
                     1 => Lies { adv_override: vec![(rng.below(4) as usize, pick(&mut rng))], path_override: vec![] },
                     2 => Lies { adv_override: vec![(rng.below(4) as usize, rng.next() % P)], path_override: vec![] },
-                    _ => Lies { adv_override: (0..4).map(|k| (k, pick(&mut rng))).collect(), path_override: vec![] },
+                    3 => Lies { adv_override: (0..4).map(|k| (k, pick(&mut rng))).collect(), path_override: vec![] },
+                    v => {
+                        if honest_tape.len() != 4 || b == 0 {
+                            continue;
+                        }
+                        let (q, r) = (a / b, a % b);
+                        let (q2, r2) = consistent[v - 4];
+                        // which tape position carries which limb (ambiguous positions carry equal values)
+                        let limb = |x: u64, hi: bool| if hi { x >> 32 } else { x & 0xFFFF_FFFF };
+                        let roles: Vec<(u64, u64)> = vec![(limb(q, true), limb(q2, true)), (limb(q, false), limb(q2, false)), (limb(r, true), limb(r2, true)), (limb(r, false), limb(r2, false))];
+                        let mut used = [false; 4];
+                        let mut ov = Vec::new();
+                        for (pos, hv) in honest_tape.iter().enumerate() {
+                            // first the positional guess (q on the first two pops, r on the last two)
+                            let order: [usize; 4] = if pos < 2 { [0, 1, 2, 3] } else { [2, 3, 0, 1] };
+                            if let Some(&ri) = order.iter().find(|&&ri| !used[ri] && roles[ri].0 == *hv) {
+                                used[ri] = true;
+                                ov.push((pos, roles[ri].1));
+                            }
+                        }
+                        Lies { adv_override: ov, path_override: vec![] }
+                    }
                 };
                 let run = run_impl(&p, &stack, DefaultHost::default(), lies.clone(), None, "");
                 let req = render_exec_request(&ExecReq { program: &p, stack: stack.to_vec(), max_cycles: None, out: "" }, &run.tape);
@@ -143,6 +190,9 @@ pub fn generate(em: &mut Emitter, seed: u64, thorough: bool) {
                     continue;
                 }
                 if run.ok {
+                    if variant == 0 {
+                        honest_tape = run.tape.adv.clone();
+                    }
                     divstats[0] += 1;
                     let st = parse_stack(&run.answer);
                     let (q, r) = (a / b, a % b);
